@@ -41,6 +41,8 @@ class AstToSqlAlchemyCoreVisitor(common._CommonVisitors, visitor.NodeVisitor):
         ):
             node = ast.Compare(node.comparator, node.right, node.left)
 
+        self._refuse_uncomparable(node)
+
         left = self.visit(node.left)
         right = self.visit(node.right)
         op = self.visit(node.comparator)
